@@ -59,7 +59,7 @@ def run_one(sc):
     nf, nc = cfg["nf"], cfg["nc"]
     env = Environment()
     rec = netlib.Recorder(env)
-    base = {"id": 0, "f": 1, "sz": 0, "pis": 0, "wt": -1, "tot": 0, "cnt": [0] * nf, "byt": [0] * nf, "cr": [0] * nc,
+    base = {"id": 0, "f": 1, "sz": 0, "sch": 0, "pis": 0, "wt": -1, "tot": 0, "cnt": [0] * nf, "byt": [0] * nf, "cr": [0] * nc,
             "fk": 0, "v": 0, "x": 0, "y": 0, "type": ""}
     out = {"cfg": cfg, "incl": 0, "bind": sc.get("bind", ""), "noout": 1 if sc.get("noout") else 0, "ev": rec.ev}
     try:
@@ -106,7 +106,10 @@ def run_one(sc):
 
     def on_arrival(i, a, pkt):
         seen_flows.add(a["f"] - 1)
-        rec.ev.append(dict(base, e="A", t=ex(env.now), id=i + 1, f=a["f"], sz=a["sz"], **state(cfg["f2c"][a["f"] - 1] - 1)))
+        # sch = 1: the arrival was scheduled before its instant began (a timer set earlier, or the same process step as
+        # such an arrival); sch = 0: a reactive arrival, created by zero-delay hops inside the instant
+        rec.ev.append(dict(base, e="A", t=ex(env.now), id=i + 1, f=a["f"], sz=a["sz"], sch=0 if "after" in a else 1,
+                           **state(cfg["f2c"][a["f"] - 1] - 1)))
 
     mon = sc.get("mon")
     if mon:
